@@ -64,6 +64,7 @@ SPACES = [
     ('multi-dS', 'pg.manyof(3, [1, 2, 3], distinct=False, sorted=True)'),
     ('multi-full', 'pg.Dict(m=pg.manyof(3, [1, 2, 3], sorted=True), n=pg.manyof(1, [1, 2]))'),
     ('perm', 'pg.Dict(p=pg.permutate([1, 2, 3, 4]), o=pg.oneof([1, 2, 3]))'),
+    ('perm6', 'pg.permutate([1, 2, 3, 4, 5, 6])'),
     ('perms', 'pg.Dict(p=pg.permutate([1, 2, 3]), q=pg.permutate([1, 2, 3, 4, 5]), '
      'r=pg.oneof([pg.permutate([7, 8, 9]), 1]))'),
     ('cond', "pg.oneof([pg.oneof([1, 2]), pg.Dict(p=pg.oneof([3, 4]), q=pg.floatv(0.0, 1.0)), 'x'])"),
@@ -420,17 +421,23 @@ def exercise(rec, opname, op_src, name, pop, *, step=0, seeded=True, key=(),
              f'{len(out)} outputs, documented range [{lo}, {hi}]',
              wpre + f'assert {lo} <= len({call}) <= {hi}')
   if seeded:
+    # (default `where` of permutation recombinators draws the point: more runs)
+    n_runs = 5 if ('where=' not in op_src and any(
+        c in op_src for c in ('PartiallyMapped(', 'Order(', 'Cycle('))) else 1
     try:
-      pop2 = [mk(S, p) for p in pop]
-      out2 = make(op_src)(pop2, step=step)
-      same = dnas_equal(out, out2)
-      msg = f'{out!r} vs {out2!r}'
+      same, msg = True, ''
+      for _ in range(n_runs):
+        pop2 = [mk(S, p) for p in pop]
+        out2 = make(op_src)(pop2, step=step)
+        if not dnas_equal(out, out2):
+          same, msg = False, f'{out!r} vs {out2!r}'
+          break
     except Exception as e:  # pylint: disable=broad-except
       same, msg = False, f'second run raised {type(e).__name__}: {e}'
     rec.case(f'{family}.deterministic', key, same,
-             'two fresh operators with the same seed disagree on equal inputs: ' + msg[:300],
-             wpre + f'a = op(pop, step={step}); pop2 = [mk(S, p) for p in pop]\n'
-             f'b = ({op_src})(pop2, step={step})\nassert dnas_equal(a, b), (a, b)')
+             'fresh operators with the same seed disagree on equal inputs: ' + msg[:300],
+             wpre + f'runs = [({op_src})([mk(S, p) for p in pop], step={step}) for _ in range(25)]\n'
+             'assert all(dnas_equal(runs[0], r) for r in runs), runs[:3]')
   return out
 
 
@@ -576,7 +583,7 @@ def drv_recombinators(tier, seed):
       'filters x 4 weightings x k in {1,2,3,10,f(step)} x 7 cutting functions')
   r = rng(seed, 'c14-rec')
   srcs = recombinator_sources(seed, tier)
-  n_groups = 2 if quick else 6
+  n_groups = 2
   for si, (name, _) in enumerate(SPACES):
     S = space(name)
     base_pop = parents_of(name, r, 6, exhaustive_cap=0)
@@ -595,6 +602,8 @@ def drv_recombinators(tier, seed):
           sets = [[a, b], [a], [a, b, c], [a, mk(S, a)]]
           if quick:
             sets = [sets[(si + oi + gi) % 4], sets[0]] if (si + oi + gi) % 4 else [sets[0]]
+          else:
+            sets = [sets[0], sets[1 + (si + oi + gi) % 3]]
         else:
           sets = [[a, b]] + ([] if quick and gi else [[b, mk(S, b)]])
         for ps in sets:
@@ -616,6 +625,35 @@ def drv_recombinators(tier, seed):
           rec.case(f'recombinators.{FAMILY[kind]}.num-parents', key, o == ('exc', ValueError),
                    f'{len(ps)} parents: expected ValueError, got {o!r}'[:300],
                    HDR + pop_src(name, ps) + f'op = {src}\ntry:\n  op(pop)\nexcept ValueError:\n  pass\nelse:\n  raise AssertionError("accepted")')
+  # Permutation kernels (public methods): children are permutations of the
+  # parents' items, for every cut.
+  for size in (2, 3, 4, 5, 6):
+    perms = list(itertools.permutations(range(size)))
+    if len(perms) > 24:
+      perms = r.sample(perms, 14 if quick else 40)
+    for a in perms:
+      for b in perms:
+        for cls in ('PartiallyMapped', 'Order', 'Cycle'):
+          op = getattr(recombinators, cls)(seed=seed)
+          cuts = ([(None, None)] if cls == 'Cycle' else
+                  [(i, j) for i in range(size) for j in range(i + 1, size + 1) if j - i < size])
+          for st, en in cuts:
+            key = (cls, a, b, st, en)
+            if cls == 'PartiallyMapped':
+              call = f'partially_mapped_crossover([{list(a)}, {list(b)}], {st}, {en})'
+            elif cls == 'Order':
+              call = f'order_crossover([{list(a)}, {list(b)}], {st}, {en})'
+            else:
+              call = f'cycle_crossover([{list(a)}, {list(b)}])'
+            try:
+              kids = eval('op.' + call, dict(op=op))  # pylint: disable=eval-used
+              ok = (len(kids) == 2 and all(sorted(k) == list(range(size)) for k in kids))
+              msg = f'children {kids} of {list(a)} x {list(b)} are not permutations'
+            except Exception as e:  # pylint: disable=broad-except
+              ok, msg = False, f'{type(e).__name__}: {e}'
+            rec.case(f'recombinators.{cls}.kernel-yields-permutations', key, ok, msg,
+                     HDR + f'kids = recombinators.{cls}(seed={seed}).{call}\n'
+                     f'assert all(sorted(k) == list(range({size})) for k in kids), kids')
   return rec.result()
 
 
@@ -1238,7 +1276,78 @@ def drv_pipelines(tier, seed):
   return rec.result()
 
 
-DRIVERS = [drv_mutators, drv_recombinators, drv_selectors, drv_algebra, drv_pipelines]
+def _flatten_ref(lst, max_level, level=0):
+  out = []
+  for e in lst:
+    if isinstance(e, list) and (max_level is None or level < max_level):
+      out.extend(_flatten_ref(e, max_level, level + 1))
+    else:
+      out.append(e)
+  return out
+
+
+def drv_flatten_foreach(tier, seed):
+  del tier
+  rec = Recorder(
+      'C14', 'Flatten / ElementWise (for_each) vs reference on nested lists',
+      scope='nested item lists of depth <= 3; max_level in {None, 1, 2, 3}; '
+      'for_each with selectors on groups')
+  r = rng(seed, 'c14-flat')
+  S = space('flat')
+  pop = with_fitness([pg.random_dna(S, r) for _ in range(6)], r)
+  a, b, c, d, e, f = pop
+  shapes = [[], [a], [[a, b], [c]], [[a, [b, [c]]], d], [[[a]], [[b], c], [], e], [[], [[]]],
+            [a, [b], [[c]], [[[d]]]]]
+  idx = lambda xs: [(_flat_idx(x, pop)) for x in xs]
+  for si, shape in enumerate(shapes):
+    for ml in (None, 1, 2, 3):
+      want = _flatten_ref(shape, ml)
+      key = (si, ml)
+      wit = HDR + pop_src('flat', pop) + f'# nested shape #{si}, max_level={ml}'
+      try:
+        got = ebase.Flatten(ml)(shape)
+        ok = _same_nested(got, want)
+        msg = f'got {idx(got)}, reference {idx(want)}'
+      except Exception as ex:  # pylint: disable=broad-except
+        ok, msg = False, f'{type(ex).__name__}: {ex}'
+      rec.case('algebra.flatten.output', key, ok, msg, wit)
+  groups = 'base.Lambda(lambda xs: [xs[:2], xs[2:5], xs[5:]])'
+  for sel, fn in (('selectors.Top(1)', lambda g: sorted(g, key=ebase.get_fitness, reverse=True)[:1]),
+                  ('selectors.Last(2)', lambda g: g[len(g) - min(2, len(g)):]),
+                  ('base.Identity()', lambda g: list(g))):
+    src = f'{groups}.for_each({sel})'
+    want = [fn(g) for g in (pop[:2], pop[2:5], pop[5:])]
+    fz = Frozen(pop)
+    try:
+      got = make(src)(pop)
+      ok = _same_nested(got, want)
+      got2 = make(src + '.flatten()')(pop)
+      ok = ok and _same_nested(got2, [x for g in want for x in g])
+      msg = f'got {idx(got)}'
+    except Exception as ex:  # pylint: disable=broad-except
+      ok, msg = False, f'{type(ex).__name__}: {ex}'
+    rec.case('algebra.for_each.output', src, ok, msg,
+             HDR + pop_src('flat', pop, fitness=True) + f'print(({src})(pop))')
+    dd = fz.diff()
+    rec.case('algebra.for_each.inputs-unchanged', src, dd is None, dd, HDR + pop_src('flat', pop, fitness=True))
+  return rec.result()
+
+
+def _flat_idx(x, pop):
+  if isinstance(x, list):
+    return [_flat_idx(y, pop) for y in x]
+  return next((i for i, p in enumerate(pop) if p is x), '?')
+
+
+def _same_nested(a, b):
+  if isinstance(a, list) != isinstance(b, list):
+    return False
+  if isinstance(a, list):
+    return len(a) == len(b) and all(_same_nested(x, y) for x, y in zip(a, b))
+  return a is b
+
+
+DRIVERS = [drv_flatten_foreach, drv_mutators, drv_recombinators, drv_selectors, drv_algebra, drv_pipelines]
 
 
 def replay(rec):
